@@ -172,6 +172,19 @@ theorem resume_tx_exact (w : World) (sender : String) (n l r : Nat) (f : Faults)
 example : ∃ e, execute { (default : CState) with config := { (default : Config) with stopped := true } }
     default { sender := "x", funds := [⟨"", 5⟩] } (.liquidStake none none none) = .error e := ⟨.halted, rfl⟩
 
+/-- "halting by the admin or any monitor": for the admin and for every account on the monitor list — wherever it stands in
+the list, whatever the state, halted already or not — CircuitBreaker succeeds (and, `breaker_frame`, changes nothing but
+the flag); conversely (`breaker_frame`) it succeeds for nobody else -/
+theorem breaker_succeeds_for_admin_and_monitors (s : CState) (info : Info)
+    (h : s.admin = some info.sender ∨ info.sender ∈ s.config.monitors) :
+    circuitBreaker s info = .ok ({ s with config := { s.config with stopped := true } }, []) := by
+  unfold circuitBreaker
+  have hc : isOk (assertAdmin s info.sender) = true ∨ info.sender ∈ s.config.monitors := by
+    rcases h with h | h
+    · exact .inl (assertAdmin_isOk.mpr h)
+    · exact .inr h
+  simp [ensure, hc, bind, Except.bind, pure, Except.pure]
+
 /-- whatever message succeeds, for whatever sender: the halted flag afterwards is set by CircuitBreaker, cleared by
 ResumeContract and unchanged by every other message (UpdateConfig with any sections included) -/
 theorem flag_changes_only_by (s s' : CState) (env : Env) (info : Info) (m : ExecMsg) (out : List SubMsg)
